@@ -361,7 +361,8 @@ fn evaluate_expr_internal(
 
             let ge_low_bool = ge_low.as_any().downcast_ref::<BooleanArray>().unwrap();
             let le_high_bool = le_high.as_any().downcast_ref::<BooleanArray>().unwrap();
-            let result = boolean::and(ge_low_bool, le_high_bool)?;
+            // SQL three-valued logic: `x >= NULL AND x <= hi` is FALSE when `x > hi`.
+            let result = boolean::and_kleene(ge_low_bool, le_high_bool)?;
 
             if *negated {
                 Ok(Arc::new(boolean::not(&result)?))
@@ -570,7 +571,8 @@ fn evaluate_binary_op(left: &ArrayRef, op: BinaryOp, right: &ArrayRef) -> Result
                 .as_any()
                 .downcast_ref::<BooleanArray>()
                 .ok_or_else(|| QueryError::Type("AND requires boolean operands".into()))?;
-            Ok(Arc::new(boolean::and(l, r)?))
+            // Kleene AND: FALSE AND NULL = FALSE (arrow's plain `and` would give NULL).
+            Ok(Arc::new(boolean::and_kleene(l, r)?))
         }
         BinaryOp::Or => {
             let l = left
@@ -581,7 +583,8 @@ fn evaluate_binary_op(left: &ArrayRef, op: BinaryOp, right: &ArrayRef) -> Result
                 .as_any()
                 .downcast_ref::<BooleanArray>()
                 .ok_or_else(|| QueryError::Type("OR requires boolean operands".into()))?;
-            Ok(Arc::new(boolean::or(l, r)?))
+            // Kleene OR: TRUE OR NULL = TRUE (arrow's plain `or` would give NULL).
+            Ok(Arc::new(boolean::or_kleene(l, r)?))
         }
         BinaryOp::Add => arithmetic_op(&left, &right, |a, b| numeric::add(a, b)),
         BinaryOp::Subtract => arithmetic_op(&left, &right, |a, b| numeric::sub(a, b)),
@@ -817,7 +820,8 @@ fn evaluate_in_list(value: &ArrayRef, list: &[ArrayRef], negated: bool) -> Resul
             .ok_or_else(|| QueryError::Type("IN comparison must return boolean".into()))?;
 
         result = Some(match result {
-            Some(prev) => boolean::or(&prev, eq_bool)?,
+            // `x IN (a, NULL)` is TRUE when x = a: accumulate with Kleene OR.
+            Some(prev) => boolean::or_kleene(&prev, eq_bool)?,
             None => eq_bool.clone(),
         });
     }
